@@ -275,11 +275,11 @@ class Check(CheckBase):
                     import traceback
                     viol(f'{op}({name!r}) raised {type(e).__name__}: {str(e)[:160]}', _name_mechanism(bk, name, op),
                          trace=traceback.format_exc()[-900:])
-                if len(violations) > 5:
+                if sum(1 for x in violations if not x['mechanism']) > 5:
                     break
             state = final_state()
             state = {k: v for k, v in state.items()}
-            if state != model and not violations:
+            if state != model and not any(not x['mechanism'] for x in violations):
                 diff = sorted(k for k in set(state) | set(model) if state.get(k) != model.get(k))[:3]
                 viol('final state of the service/directory differs from the model', None, names=diff)
             if hasattr(backend, 'close'):
@@ -296,8 +296,18 @@ class Check(CheckBase):
         if svc is not None:
             counters['service_requests'] = len(svc.requests)
             counters['pages_fetched'] = svc.pages
+        # violations not attributed to a known mechanism first: they must never be crowded out by known ones
+        violations.sort(key=lambda x: x['mechanism'] is not None)
+        known_seen = {}
+        kept = []
+        for x in violations:
+            if x['mechanism']:
+                known_seen[x['mechanism']] = known_seen.get(x['mechanism'], 0) + 1
+                if known_seen[x['mechanism']] > 1:
+                    continue
+            kept.append(x)
         return {'verdict': 'violated' if violations else 'held', 'classes': sorted(classes), 'counters': counters,
-                'violations': violations[:5]}
+                'violations': kept[:6]}
 
     # ---------------------------------------------------------------------------------------------------
     def _atomic(self, case, scratch):
